@@ -78,6 +78,11 @@ def gen_cases(ctx):
         cases.append({"kind": "contract", "par": gen.random_parent_array(rng, n, kind),
                       "seed": rng.randrange(10 ** 9), "algo": algo, "deep": rng.random() < 0.5,
                       "steps": 2, "svd": svd, "fullrank": rng.random() < 0.5})
+    # a saturated, flat-spectrum bond next to the root stays the largest bond while deeper bonds are augmented
+    # and cut back by a value-based truncation (the truncated state must still be canonical at the root)
+    for _ in range(ctx.n(12, 60)):
+        cases.append({"kind": "flatleaf", "seed": rng.randrange(10 ** 9), "deep": rng.random() < 0.5,
+                      "rel_tol": rng.choice([0.3, 0.1]), "dt": rng.choice([0.05, 0.02]), "steps": 3})
     for _ in range(ctx.n(10, 60)):
         cases.append({"kind": "saturated", "seed": rng.randrange(10 ** 9), "algo": rng.choice(["bug", "fixedbug"]),
                       "deep": rng.random() < 0.5, "d": rng.choice([2, 3])})
@@ -213,6 +218,9 @@ def _common_bug_module():
 def _run_one(ctx, case, rec):
     if case["kind"] == "saturated":
         _saturated(ctx, case)
+        return None
+    if case["kind"] == "flatleaf":
+        _flatleaf(ctx, case)
         return None
     kind = case["algo"]
     _common_bug_module()
@@ -353,6 +361,55 @@ def _subtree_ids(ttns, nid):
         out += ttns.nodes[out[i]].children
         i += 1
     return out
+
+
+def _flatleaf(ctx, case):
+    """Tree r - {L, m - c}: L has physical dimension 4 and a saturated bond 4 with a flat Schmidt spectrum."""
+    from pytreenet.ttns.ttns import TreeTensorNetworkState
+    rng = random.Random(case["seed"])
+    nprng = np.random.default_rng(case["seed"])
+    par = [-1, 0, 0, 2]
+    names = {0: "r", 1: "L", 2: "m", 3: "c"}
+    phys = {0: 2, 1: 4, 2: 2, 3: 5}
+    bond = {(0, 1): 4, (0, 2): 2, (2, 3): 2}
+    ttns, *_ = gen.build_network(TreeTensorNetworkState, par, bond, {i: [phys[i]] for i in range(4)}, rng, nprng,
+                                 names=names, order=[0, 1, 2, 3], shuffle_legs=False)
+    H, Hm = algos.hermitian_ttno(rng, nprng, par, phys, names, n_terms=3)
+    ttns.canonical_form("r")
+    q, _ = np.linalg.qr(gen.rand_tensor(nprng, (4, 4)))
+    ttns.replace_tensor("r", (q / 2).reshape(4, 2, 2))      # legs: L (4), m (2), phys (2); norm one, flat spectrum
+    ttns.orthogonality_center_id = "r"
+    order = sorted(ttns.nodes)
+    ctx.count(("flatleaf", case["seed"], case["rel_tol"]), nontrivial=True)
+    ctx.tally("kind", "flatleaf")
+    struct0 = dense.structure(ttns)
+    svd = dict(max_bond_dim=50, rel_tol=case["rel_tol"], total_tol=1e-12)
+    try:
+        algo = algos.make_algo("bug", ttns, H, case["dt"], case["dt"], [], deep=case["deep"], svd=svd)
+    except Exception as e:              # noqa: BLE001
+        ctx.oracle_fail(case, f"bug flat-leaf: construction raised {type(e).__name__}: {str(e)[:200]}")
+        return
+    probs = []
+    for step in range(case["steps"]):
+        try:
+            algo.run_one_time_step()
+        except Exception as e:          # noqa: BLE001
+            ctx.oracle_fail(case, f"bug flat-leaf: step {step} raised {type(e).__name__}: {str(e)[:200]}")
+            return
+        st = algo.state
+        if dense.structure(st) != struct0:
+            probs.append(f"step {step}: identifiers / relations changed")
+            break
+        if st.orthogonality_center_id != st.root_id:
+            probs.append(f"step {step}: recorded centre {st.orthogonality_center_id} is not the root")
+        else:
+            probs += [f"step {step}: " + p for p in c06.canonical_problems(st, st.root_id)]
+        if max(st.bond_dims().values()) > 50:
+            probs.append(f"step {step}: bond above the maximum")
+        if probs:
+            break
+    if probs:
+        ctx.oracle_fail(case, f"bug flat-leaf (rel_tol={case['rel_tol']}): " + "; ".join(probs[:3]))
 
 
 def _saturated(ctx, case):
